@@ -40,6 +40,10 @@ pub struct RunCfg {
     pub activity: Option<(f32, f32)>,
     pub cancel: CancelPlan,
     pub sort_cb: SortCallback,
+    /// the provider's cancellation flag is raised (for good) between the solve that returned
+    /// Unsolvable and the rendering of its conflict - e.g. a deadline that passes meanwhile
+    #[serde(default)]
+    pub cancel_before_render: bool,
     /// render graph / graphviz / message on Unsolvable
     pub render: bool,
     pub dump: bool,
@@ -55,6 +59,7 @@ impl Default for RunCfg {
             activity: None,
             cancel: CancelPlan::Never,
             sort_cb: SortCallback::None,
+            cancel_before_render: false,
             render: false,
             dump: false,
             log: false,
@@ -413,6 +418,9 @@ pub fn solve_on<RT: resolvo::runtime::AsyncRuntime>(
             }
         }
         Ok(Err(UnsolvableOrCancelled::Unsolvable(conflict))) => {
+            if cfg.render && cfg.cancel_before_render {
+                solver.provider().cancel.set(CancelPlan::At { k: 0, sticky: true });
+            }
             if cfg.render {
                 match guarded("graph", || conflict.graph(solver)) {
                     Err(Err(pi)) => render_panic = Some(pi),
